@@ -17,6 +17,7 @@ import (
 	"time"
 
 	ucfg "github.com/elastic/go-ucfg"
+	"github.com/elastic/go-ucfg/cfgutil"
 	"github.com/elastic/go-ucfg/parse"
 
 	"verif/internal/harness"
@@ -39,7 +40,7 @@ func (check) Cases(tier string) int {
 }
 
 func (check) Rule() string {
-	return "each case builds one shared config rich in dynamic values (references, splices, resolver-provided text that parses into objects and lists, nil values, settings captured as *Config) and lets 2-32 goroutines perform a shuffled mix of reads on it at the same time (Unpack into interface{}/typed struct/*Config capture, String/Int/Bool getters, Child, Has, CountField, GetFields, Path, FlattenedKeys, using it and a captured sub-config as merge source), 10 rounds per config, preceded by 3 cold rounds in which the goroutines are the first readers of a freshly built identical config (lazily initialised state is initialised under concurrency); the worker is built with the Go race detector (reports counted from the race log per case); at the yield hook inside dynamic value evaluation a PRNG-chosen goroutine yields or sleeps 0-50us; every result is compared with the sequential baseline taken before the goroutines start; the non-evaluating fingerprint of the shared config is compared before/after every round. Distinct interleavings are counted from the merged stream of goroutine ids at the hook. Non-trivial = a round in which at least two goroutines overlapped at the hook (interleaving differs from serial order); distinct = distinct (config, round interleaving)."
+	return "each case builds one shared config rich in dynamic values (references, splices, resolver-provided text that parses into objects and lists, nil values, settings captured as *Config) and lets 2-32 goroutines perform a shuffled mix of reads on it at the same time (Unpack into interface{}/typed struct/*Config capture, String/Int/Bool getters, Child, Has, CountField, GetFields, Path, FlattenedKeys, using it and a captured sub-config as merge source, directly and through cfgutil.Collector.Add followed by another Add), 10 rounds per config, preceded by 3 cold rounds in which the goroutines are the first readers of a freshly built identical config (lazily initialised state is initialised under concurrency); the worker is built with the Go race detector (reports counted from the race log per case); at the yield hook inside dynamic value evaluation a PRNG-chosen goroutine yields or sleeps 0-50us; every result is compared with the sequential baseline taken before the goroutines start; the non-evaluating fingerprint of the shared config is compared before/after every round. Distinct interleavings are counted from the merged stream of goroutine ids at the hook. Non-trivial = a round in which at least two goroutines overlapped at the hook (interleaving differs from serial order); distinct = distinct (config, round interleaving)."
 }
 
 func (check) Assumptions() []string {
@@ -198,6 +199,17 @@ func ops(c *ucfg.Config, captured *ucfg.Config, o []ucfg.Option) []op {
 			var m map[string]interface{}
 			return canon(m, dst.Unpack(&m, o...))
 		}},
+		{"cfgutil.Collector.Add(shared,other)", func() string {
+			col := cfgutil.NewCollector(nil, ucfg.PathSep("."))
+			if err := col.Add(c, nil); err != nil {
+				return "error"
+			}
+			other, _ := ucfg.NewFrom(map[string]interface{}{"extra": 1, "sub": map[string]interface{}{"added": true}, "l": []interface{}{"x", "y", "z", "more"}})
+			if err := col.Add(other, nil); err != nil {
+				return "error"
+			}
+			return strings.Join(sorted(col.Config().GetFields()), ",")
+		}},
 		{"dst.Merge(shared, MetaData)", func() string {
 			// the merge call carries its own source metadata; the source config has none
 			dst := ucfg.New()
@@ -235,6 +247,19 @@ func ops(c *ucfg.Config, captured *ucfg.Config, o []ucfg.Option) []op {
 				return canon(m, captured.Unpack(&m, o...))
 			}},
 			op{"captured.String(deep.r)", func() string { s, err := captured.String("deep.r", -1, o...); return canon(s, err) }},
+			op{"cfgutil.Collector.Add(captured,other)", func() string {
+				// the library's other merge entry point: everything added to a
+				// collector is a merge source and must stay as it is
+				col := cfgutil.NewCollector(nil, ucfg.PathSep("."))
+				if err := col.Add(captured, nil); err != nil {
+					return "error"
+				}
+				other, _ := ucfg.NewFrom(map[string]interface{}{"extra": 1, "deep": map[string]interface{}{"added": true}})
+				if err := col.Add(other, nil); err != nil {
+					return "error"
+				}
+				return strings.Join(sorted(col.Config().GetFields()), ",")
+			}},
 			op{"dst.Merge(captured)", func() string {
 				dst := ucfg.New()
 				if err := dst.Merge(captured, ucfg.PathSep(".")); err != nil {
